@@ -58,7 +58,7 @@ def run(ctx):
                 recs.insert(i + 1, {"ev": "Garbage", "err": "malformed HTTP response", "at": 10})
                 return recs
         return recs
-    big = max(traces, key=os.path.getsize)
+    big = sorted(traces, key=os.path.getsize, reverse=True)
     for f, name in ((body_short, "body one byte short"), (cl_mismatch, "Content-Length does not match the bytes sent"),
                     (head_with_body, "HEAD response with body bytes"), (chunked_204, "chunked framing on a 204"),
                     (lost_header, "an application header lost"), (next_starts_inside, "bytes between two responses that are not a response")):
